@@ -138,6 +138,11 @@ CasesC03(lazy) ==
   \cup { Case(FsOf(<<Plain("a", 0, 1), Plain("c", 0, 2),
                      <<"a.b", "yaml", <<LayerDoc("a.b", [pk \in {"$parent"} |-> False]), LayerDoc("a.b#2", [pk \in {"$parent"} |-> S("c")])>> >> >>, <<>>),
               <<"a.b.yaml">>, FALSE, "/", "conflict", Fails) : dummy \in {1} }
+  (* null is "no parent", like false: next to a named parent in the same file it is a conflict, in either order *)
+  \cup { Case(FsOf(<<Plain("a", 0, 1), Plain("c", 0, 2),
+                     <<"a.b", "yaml", <<LayerDoc("a.b", [pk \in {"$parent"} |-> pv[1]]), LayerDoc("a.b#2", [pk \in {"$parent"} |-> pv[2]])>> >> >>, <<>>),
+              <<"a.b.yaml">>, FALSE, "/", "conflict", Fails)
+         : pv \in { <<S("c"), Null>>, <<Null, S("c")>>, <<S("c"), False>>, <<L(<<S("c")>>), Null>> } }
   (* a symlink inherits from its target's name; a directive in the content still wins *)
   \cup { Case(FsOf(<<Plain("a", rot, 1), Plain("a.b", rot, 2), Plain("k", rot, 3)>>,
                    << <<"k.link", ExtAt(2, rot), "a.b." \o ExtAt(2, rot)>> >>),
